@@ -40,7 +40,7 @@ func init() {
 	properties["C13"] = &property{
 		ID: "C13", Level: "model_checking", Kinds: []string{"local"},
 		Harnesses: relHarnesses([]string{"gsxLocal_"}, "local",
-			[]map[string]int{{"K": 3, "B": 2, "strlen": 8, "paths": 600, "wall_s": 15}},
+			[]map[string]int{{"K": 3, "B": 2, "strlen": 8, "paths": 2500, "wall_s": 25}},
 			[]map[string]int{{"K": 4, "B": 2, "strlen": 8, "paths": 5000, "wall_s": 40}}),
 		Assumptions: []string{"as C01; two lazily initialised function declarations d1, d2 in source order"},
 	}
